@@ -896,3 +896,36 @@ def oracle_c14(op, kv, res, trace, flags):
 
 def nontrivial_c14(op, kv):
     return True
+
+
+# --------------------------------------------------------------------------
+# C10: the same (needle, haystack) under every configuration
+# --------------------------------------------------------------------------
+def gen_c10(tier, rng):
+    quick = tier == "quick"
+    cases = []
+    pairs = substring_pairs(rng, quick)
+    # keep the pairs that exercise heuristics: needles >= 2 bytes
+    pairs = [(x, h) for (x, h) in pairs if len(x) >= 2]
+    step = 9 if quick else 2
+    extra_rankers = seeded_rankers(rng, 1 if quick else 4)
+    k = 0
+    for (x, h) in pairs[::step]:
+        k += 1
+        # a ranker that makes the needle's own bytes the most common
+        t = bytearray([0] * 256)
+        for b in x:
+            t[b] = 255
+        rankers = RANKS_MM + extra_rankers + ["tbl:" + bytes(t).hex()]
+        if quick:
+            rankers = [rankers[(k + j * 3) % len(rankers)] for j in range(3)]
+        for cfg in ("auto", "none"):
+            for rk in rankers:
+                for cpu in (CPUS if (not quick or k % 3 == 0) else [CPUS[k % 3]]):
+                    cpus = f" cpu={cpu}" if cpu else ""
+                    cases.append(f"mm f=find cfg={cfg} rank={rk}{cpus} x={hexs(x)} h={hexs(h)} a={(k * 5) % 64}")
+    return cases
+
+def oracle_c10(op, kv, res, trace, flags):
+    # every configuration must give the answer of the naive search, hence the same answer as every other configuration
+    return oracle_mm(op, kv, res, trace, flags)
